@@ -1,12 +1,14 @@
 """C14 Pupil masks and sub-aperture selection are exact geometric indicators.
 
 E1: (a) `circle` on the complete quarter-pixel lattice of radii and centres for every size in the
-bound and both origins, compared bit for bit with an integer-arithmetic disc (all arguments are
+bound and both origins, compared with an integer-arithmetic disc (all arguments are
 dyadic, so the library's float arithmetic is exact and every distance == radius tie is decided);
 nesting, the 8 square symmetries, integer translation and the area bound are checked on the
-library's own outputs. (b) sub-aperture selection on ALL 0/1 masks of 2x2..4x4 (and 5x5/6x6 with
-few zero cells, and circular pupils) for every sub-aperture count and threshold, against exact
-rational cell means. (c) make_subaps_2d scatter -> gather on index-coded data for all masks.
+library's own outputs; near ties for non-dyadic radii and centres against exact rationals; spot sizes up
+to 2050 / 4100. (b) sub-aperture selection on ALL 0/1 masks of 2x2..4x4 and 2x3..4x3 (and 5x5/6x6 with
+few zero cells, circular pupils, grey masks, spot sizes 130 / 1040) for every sub-aperture count and
+threshold, against exact rational cell means. (c) make_subaps_2d scatter -> gather on index-coded data
+for all masks. (d) call histories on caller-owned arrays, other calling conventions.
 """
 import warnings
 
@@ -26,22 +28,36 @@ RULE = ("circle cases = product(size, origin, residue class of the centre modulo
         "size >= 2, a sub-aperture case when the masks are not all constant")
 ASSUMPTIONS = [
     "circle is decided on dyadic arguments (multiples of 1/4 pixel; 1/2 pixel centres in the quick tier) where "
-    "float arithmetic is exact; non-dyadic radii/centres are only covered by the docstring examples",
+    "float arithmetic is exact; non-dyadic radii / centres are decided at a relative distance of at least 1e-13 "
+    "(radii, dyadic centres) / 1e-11 (non-dyadic centres) from every distance == radius tie, against exact rational "
+    "arithmetic on the values of the floats handed over",
     "x of circle_centre runs along the columns and y along the rows (as drawn in the docstring of circle)",
+    "masks are 0/1 valued numeric arrays (differences, products and means of them are numbers); no particular "
+    "dtype is demanded",
     "'area tends to pi r^2' is decided by the bounded surrogate pi(r-sqrt(.5))^2 <= area <= pi(r+sqrt(.5))^2 on "
-    "every enumerated disc lying inside the array plus a ladder r = 1..128 whose end error is below 1e-3",
-    "grid cells of a mask whose size is not a multiple of the sub-aperture count are the ones obtained by "
-    "round-half-even of k*size/subaps (the rounding the code documents); thresholds are dyadic",
+    "every enumerated disc lying inside the array plus a ladder r = 1..64 (quick) / 1..128 (thorough) whose relative "
+    "error stays under its analytic envelope, does not increase and ends below 1/r_last",
+    "grid cells: edge k of a cell is the integer nearest to the exact k*size/subaps; where that position is a "
+    "half-integer the statement fixes no rule and the library's own choice (read off one probe mask per edge through "
+    "findActiveSubaps) is used; the label of a cell is k*size/subaps, within half a pixel when size is not a "
+    "multiple of the count; thresholds are dyadic",
+    "fill factors are compared up to 32 ulp (the cell sums are exact, the mean may be evaluated in several ways); a "
+    "cell whose exact mean EQUALS the threshold must be selected when the float mean is exact in every order of "
+    "evaluation (constant cells, cells of 2^a x 2^b pixels), otherwise either decision is accepted",
     "sub-aperture counts larger than the mask size (empty cells) are outside the domain",
     "selection is compared as a set of cells (the statement does not fix the order of the returned rows)",
+    "call histories: a result the caller edits in place and a mask / slope array the caller edits between calls "
+    "must not change what later calls return (the statement speaks of the values of the current arguments)",
 ]
 ENGINES = ["E1-product-enumeration"]
 LEVEL_TEXT = ("Every size 1..9 (quick) / 1..16 (thorough), every radius k/4 in [0,size], every centre of the "
               "1/2 (quick) / 1/4 (thorough) pixel lattice in [-size/2-1, size/2+1]^2 and both origins are "
-              "enumerated completely and compared bit for bit with an integer disc; all 66 064 binary masks of "
-              "2x2..4x4 with every sub-aperture count and threshold are decided against exact rational means.")
-LEVEL_NOTE = ("Trusted: integer arithmetic of numpy int64 and Python Fractions. Not covered: non-dyadic "
-              "arguments (except docstring examples), sizes beyond the bound, non-square masks.")
+              "enumerated completely and compared with an integer disc; all 66 064 binary masks of 2x2..4x4 "
+              "(quick: 4x4 with every count only on the masks with at most 3 zeros or ones) and all 8 832 masks of "
+              "2x3..4x3 with every sub-aperture count and threshold are decided against exact rational means.")
+LEVEL_NOTE = ("Trusted: integer arithmetic of numpy int64 and Python Fractions. Not covered: radii / centres closer "
+              "than 1e-13 (relative) to a tie unless dyadic, sizes beyond the spot sizes in the bounds, "
+              "non-square masks beyond 4x3 except the listed spot shapes, mask values that are not dyadic.")
 
 THRESHOLDS = [0.0, 0.25, 0.5, 0.75, 1.0, 1.25]
 CHUNK = 512
@@ -59,13 +75,24 @@ def _ladder(tier):
     return [1, 2, 4, 8, 16, 32, 64] if tier == "quick" else [1, 2, 4, 8, 16, 32, 64, 128]
 
 
+def _large_sizes(tier):
+    return (1030, 2050) if tier == "quick" else (1030, 2050, 4100)
+
+
 def BOUNDS(tier):
     return {"circle_sizes": list(_sizes(tier)), "radius_step": 0.25,
             "centre_step": _step(tier) / 4.0, "centre_range": "[-size/2-1, size/2+1]^2 about the array middle",
             "origins": ["middle", "corner"], "area_ladder_radii": _ladder(tier),
-            "mask_sizes_all": [2, 3, 4], "mask_sizes_few_zeros": {"5": _fz(tier, 5), "6": _fz(tier, 6)},
-            "thresholds": THRESHOLDS, "scatter_frames": [1, 2],
-            "scatter_mask_sizes": [1, 2, 3] if tier == "quick" else [1, 2, 3, 4]}
+            "circle_spot_sizes": [130, 259] + list(_large_sizes(tier)), "largest_circle_size": max(_large_sizes(tier)),
+            "near_tie_sizes": [5, 11, 12, 30], "non_dyadic_centre_sizes": [4, 5, 12],
+            "mask_sizes_all": [2, 3, 4], "mask_shapes_all_non_square": ["2x3", "3x2", "2x4", "4x2", "3x4", "4x3"],
+            "mask_sizes_few_zeros": {"5": _fz(tier, 5), "6": _fz(tier, 6)},
+            "mask_spot_sizes": [130, 1040], "largest_mask_size": 1040,
+            "mask_spot_shapes_non_square": ["4x8", "8x4", "6x9", "9x6", "10x15", "12x7", "130x65", "65x130"],
+            "tie_edge_pairs_size_count": [[5, 2], [7, 2], [9, 6], [15, 6], [25, 22], [29, 14], [100, 24], [130, 60]],
+            "grey_alphabets": [[0, 0.5, 1], [-0.5, 0, 2]],
+            "thresholds": THRESHOLDS, "scatter_frames": [1, 2], "scatter_frames_large": [0, 1, 3],
+            "scatter_mask_sizes": [1, 2, 3] if tier == "quick" else [1, 2, 3, 4], "scatter_spot_sizes": [12, 26, 65]}
 
 
 def _fz(tier, n):
@@ -74,6 +101,27 @@ def _fz(tier, n):
 
 def cases(tier):
     yield Case("large", {"kind": "large"})
+    for n in _large_sizes(tier):
+        yield Case("large:circle:n=%d" % n, {"kind": "large_circle", "n": n})
+    yield Case("large:selection:n=1040", {"kind": "large_selection"})
+    yield Case("subaps:tie_edges", {"kind": "tie_edges"})
+    yield Case("subaps:rect:spot", {"kind": "rect_spot"})
+    yield Case("scatter:large", {"kind": "scatter_large"})
+    yield Case("reuse", {"kind": "reuse"})
+    yield Case("conventions", {"kind": "conventions"})
+    for n in (4, 5, 12):
+        yield Case("nondyadic:n=%d" % n, {"kind": "nondyadic", "n": n})
+    # masks with values outside [0, 1] (un-normalised / negative lobes): every mask over {-1/2, 0, 2} on 2x2
+    yield Case("grey:signed:n=2:codes=0-80", {"kind": "grey", "n": 2, "lo": 0, "hi": 81, "values": [-1, 0, 4],
+                                             "thresholds": [-0.25] + THRESHOLDS})
+    # non-square masks: ALL 0/1 masks of 2x3 ... 4x3 (both orientations), every count that leaves no cell empty
+    for shape in ((2, 3), (3, 2), (2, 4), (4, 2), (3, 4), (4, 3)):
+        total = 1 << (shape[0] * shape[1])
+        for lo in range(0, total, CHUNK):
+            hi = min(total, lo + CHUNK)
+            yield Case("subaps:shape=%dx%d:codes=%d-%d" % (shape[0], shape[1], lo, hi - 1),
+                       {"kind": "subaps", "n": max(shape), "shape": list(shape), "codes": ("range", lo, hi),
+                        "subaps": list(range(1, min(shape) + 1))})
     for n in (5, 11, 12, 30):
         yield Case("neartie:n=%d" % n, {"kind": "neartie", "n": n})
     # grey (apodised / soft-edged) masks: every mask over {0, 1/2, 1} on 2x2 and 3x3
@@ -130,6 +178,13 @@ def cases(tier):
 def evaluate(p):
     if p["kind"] == "large":
         return _large(p)
+    simple = {"large_circle": _large_circle, "large_selection": _large_selection, "tie_edges": _tie_edges,
+              "rect_spot": _rect_spot, "scatter_large": _scatter_large, "reuse": _reuse,
+              "conventions": _conventions, "nondyadic": _nondyadic}
+    if p["kind"] in simple:
+        with warnings.catch_warnings():
+            warnings.simplefilter("ignore")
+            return simple[p["kind"]](p)
     if p["kind"] == "neartie":
         return _neartie(p)
     if p["kind"] == "grey":
@@ -154,12 +209,54 @@ def evaluate(p):
 
 # ----------------------------------------------------------------------------- circle
 
+def _same_paths(o, named, calls):
+    """the same function whichever way it is imported: equal OUTPUTS on a few inputs (a wrapper - deprecation shim,
+    argument validation - is not the same object and is none of the statement's business).  A path that does not
+    exist is not claimed by the statement."""
+    fs = [(nm, f) for nm, f in named if f is not None]
+    if len(fs) < len(named):
+        o.stat("same_function_all_paths_not_claimed", len(named) - len(fs))
+    ok, det = True, None
+    for args in calls:
+        base = fs[0][1](*args)
+        o.stat("lib_calls", len(fs))
+        for nm, f in fs[1:]:
+            got = f(*args)
+            if not _same_result(base, got):
+                ok, det = False, {"path": nm, "args": repr(args)}
+    o.check("same_function_all_paths", ok, detail=det)
+
+
+def _same_result(a, b):
+    if isinstance(a, (tuple, list)):
+        return isinstance(b, (tuple, list)) and len(a) == len(b) and all(_same_result(x, y) for x, y in zip(a, b))
+    a, b = numpy.asarray(a), numpy.asarray(b)
+    return a.shape == b.shape and bool(numpy.array_equal(a, b))
+
+
+def _arithmetic_ok(a, b):
+    """masks behave as 0/1 NUMBERS (any numeric dtype, no particular one): a - b is defined and is non-zero exactly
+    where the two masks differ (how annuli are made), a * b is the intersection, mean() is the filled fraction"""
+    try:
+        a, b = numpy.asarray(a), numpy.asarray(b)
+        ia, ib = (a == 1).astype(int), (b == 1).astype(int)
+        d = numpy.asarray(a - b)
+        pr = numpy.asarray(a * b)
+        return bool(numpy.array_equal(d != 0, ia != ib) and numpy.array_equal(pr == 1, (ia * ib) == 1)
+                    and numpy.all((pr == 0) | (pr == 1))
+                    and abs(float(a.mean()) - ia.sum() / float(ia.size)) <= 1e-6)      # single-precision masks too
+    except Exception:
+        return False
+
+
 def _circle(p):
     import aotools
     from aotools.functions import pupil
     o = Out()
     n, origin, qx, qy = p["n"], p["origin"], p["qx"], p["qy"]
-    o.check("same_function_all_paths", aotools.circle is pupil.circle and aotools.functions.circle is pupil.circle)
+    _same_paths(o, [("aotools.functions.pupil.circle", pupil.circle), ("aotools.circle", getattr(aotools, "circle", None)),
+                    ("aotools.functions.circle", getattr(getattr(aotools, "functions", None), "circle", None))],
+                [(n / 2.0, n), (0.75, n, (0.5, -0.25), origin), (n / 4.0 + 0.25, n, (-0.5, 1.0), origin)])
     mid = 2 * n if origin == "corner" else 0           # array middle in quarter pixels
     lo, hi = mid - 2 * n - 4, mid + 2 * n + 4
     xs = [c for c in range(lo, hi + 1) if (c - lo) % 4 == qx]
@@ -171,13 +268,16 @@ def _circle(p):
         for iy, cy in enumerate(ys):
             c = (cx / 4.0, cy / 4.0)
             for ir, r4 in enumerate(rs):
-                m = pupil.circle(r4 / 4.0, n, c, origin)
-                if m.shape != (n, n) or m.dtype != numpy.float64 or not numpy.all((m == 0) | (m == 1)):
+                m = numpy.asarray(pupil.circle(r4 / 4.0, n, c, origin))
+                if m.shape != (n, n) or not numpy.all((m == 0) | (m == 1)):
                     bad_values += 1
                     continue
                 lib[ix, iy, ir] = (m == 1)
+            # the masks are numbers: differences (annuli), products and means of them are what callers form
+            if not _arithmetic_ok(pupil.circle(n / 2.0, n, c, origin), pupil.circle(n / 4.0, n, c, origin)):
+                bad_values += 1
     ncall = len(xs) * len(ys) * len(rs)
-    o.stat("lib_calls", ncall)
+    o.stat("lib_calls", ncall + 2 * len(xs) * len(ys))
     o.check("binary_float64_square", bad_values == 0, detail="%d outputs" % bad_values, n=ncall)
     # --- integer oracle, all radii at once
     r2 = numpy.array(rs, dtype=numpy.int64) ** 2
@@ -325,9 +425,10 @@ class _Agg(object):
 
     def __init__(self):
         self.d = {}
+        self.edges = {}        # (shape, subaps) -> cell edges of this case (tie edges probed on the library)
 
-    def add(self, clause, sub, ok, detail=None, measure=None):
-        e = self.d.setdefault((clause, sub), [0, 0, None, None])
+    def add(self, clause, sub, ok, detail=None, measure=None, tol=1e-12):
+        e = self.d.setdefault((clause, sub), [0, 0, None, None, tol])
         e[0] += 1
         if measure is not None and (e[3] is None or measure > e[3]):
             e[3] = measure
@@ -337,75 +438,196 @@ class _Agg(object):
                 e[2] = detail() if callable(detail) else detail
 
     def flush(self, o):
-        for (clause, sub), (n, bad, det, meas) in sorted(self.d.items()):
+        for (clause, sub), (n, bad, det, meas, tol) in sorted(self.d.items()):
             if bad and det is not None:
                 det = dict(det, inputs_failing=bad)
             o.check(clause, bad == 0, sub=None if bad == 0 else sub, detail=det, n=n,
                     measure=meas if meas is not None else (bad if bad else None),
-                    tol=1e-12 if meas is not None else None)
+                    tol=tol if meas is not None else None)
 
 
-def _check_selection(o, agg, wfslib, mask_int, subaps_list, label, unit=1):
+# Fill factors are means of exactly summable (dyadic) mask values, so the SUM of a cell is exact in every order of
+# summation, but the mean is not the result of one division in every legitimate evaluation (reciprocal multiply,
+# mean of row means, running mean: 1-4 ulp apart on cells of up to 130 x 130 pixels).  The unchanged library
+# measures 0; 32 ulp keeps a margin of > 5 over any of those evaluations and is 8 orders of magnitude below the
+# 1e-7 of a single-precision accumulator.
+FILL_TOL = 32 * 2.220446049250313e-16
+
+
+def _probe_edge(o, wfslib, shape, s, axis, k, f):
+    """Which of the two legitimate integers (f or f + 1) does the library use for the cell edge k whose exact
+    position f + 1/2 is a half-integer?  Asked through the public function only: a mask of ones whose line f
+    (along `axis`) is dark - the cells that contain line f are the ones whose fill factor is below 1.
+    Returns f, f + 1 or None (inconclusive: the caller falls back to the even one)."""
+    try:
+        m = numpy.ones(shape)
+        if axis == 0:
+            m[f, :] = 0
+        else:
+            m[:, f] = 0
+        coords, fills = wfslib.findActiveSubaps(s, m, 0.0, returnFill=True)
+        o.stat("lib_calls", 1)
+        coords = numpy.asarray(coords, dtype=float).reshape(-1, 2)
+        fills = numpy.asarray(fills, dtype=float).ravel()
+        if len(fills) != len(coords) or not len(fills):
+            return None
+        idx = numpy.rint(coords[:, axis] / (shape[axis] / float(s))).astype(int)
+        prev, nxt = fills[idx == k - 1] < 1, fills[idx == k] < 1
+        if not (len(prev) and len(nxt)):
+            return None
+        if prev.all() and not nxt.any():
+            return f + 1
+        if nxt.all() and not prev.any():
+            return f
+    except Exception:
+        pass
+    return None
+
+
+def _edges(o, agg, wfslib, shape, s):
+    """cell edges along both axes; half-integer positions (no rule in the statement) take the library's choice"""
+    key = (shape, s)
+    if key not in agg.edges:
+        out = []
+        for axis in (0, 1):
+            b = geom.cell_bounds(shape[axis], s)
+            for k in geom.cell_edge_ties(shape[axis], s):
+                f = ((2 * k * shape[axis]) // s - 1) // 2
+                c = _probe_edge(o, wfslib, shape, s, axis, k, f)
+                if c is None:
+                    o.stat("tie_edge_probe_inconclusive", 1)
+                else:
+                    b[k] = c
+                    o.stat("tie_edges_probed", 1)
+            out.append(numpy.array(b, dtype=numpy.int64))
+        agg.edges[key] = out
+    return agg.edges[key]
+
+
+def _cells(coords, shape, s):
+    """cell indices of returned coordinates (nearest multiple of the spacing along each axis)"""
+    sp = numpy.array([shape[0] / float(s), shape[1] / float(s)])
+    idx = numpy.rint(coords / sp).astype(int)
+    return idx, [(int(a), int(b)) for a, b in idx]
+
+
+def _check_selection(o, agg, wfslib, mask_int, subaps_list, label, unit=1, thresholds=None):
     """all thresholds x sub-aperture counts for one mask; records into the aggregator.
     The mask handed to the library is mask_int / unit (unit 2: grey masks with values 0, 1/2, 1)."""
-    n = mask_int.shape[0]
+    from fractions import Fraction
+    shape = mask_int.shape
     mask = mask_int.astype(float) / unit
+    binary = unit == 1 and int(mask_int.min()) >= 0 and int(mask_int.max()) <= 1
     for s in subaps_list:
-        ones, size = geom.cell_counts(mask_int, s)
-        if (size == 0).any():
+        if s > min(shape):
             continue            # empty cells: outside the domain
-        size = size * unit
-        sp = n / float(s)
-        means = ones / size      # correctly rounded quotients of integers
+        bx, by = _edges(o, agg, wfslib, shape, s)
+        ones, npix = geom.cell_counts_edges(mask_int, bx, by)
+        if (npix == 0).any():
+            continue            # empty cells: outside the domain
+        size = npix * unit
+        means = ones / size.astype(float)      # correctly rounded quotients of integers
+        # a cell is constant iff pixels * sum of squares == (sum)^2
+        if binary:
+            const = (ones == 0) | (ones == npix)
+        else:
+            sq, _ = geom.cell_counts_edges(mask_int * mask_int, bx, by)
+            const = npix * sq == ones * ones
+        # a cell mean that EQUALS the threshold is decided the same way by every order of evaluation only when
+        # the float mean is exact in every order: constant cells and cells of 2^a x 2^b pixels (dyadic values)
+        robust = const | ((npix & (npix - 1)) == 0)
+        exact_grid = [shape[0] % s == 0, shape[1] % s == 0]
+        ctol = numpy.array([0.0 if e else 0.5 for e in exact_grid])
+        expect_sp = numpy.array([Fraction(shape[0], s), Fraction(shape[1], s)], dtype=object)
         prev = None
-        for t in THRESHOLDS:
+
+        def decide(t):
+            tq = Fraction(t)
+            lhs, rhs = ones * tq.denominator, tq.numerator * size
+            tie = (lhs == rhs) & ~robust
+            must = set(tuple(int(v) for v in k) for k in numpy.argwhere((lhs >= rhs) & ~tie))
+            may = set(tuple(int(v) for v in k) for k in numpy.argwhere(tie))
+            return must, may
+
+        for t in (THRESHOLDS if thresholds is None else thresholds):
             coords, fills = wfslib.findActiveSubaps(s, mask.copy(), t, returnFill=True)
             o.stat("lib_calls", 1)
-            want = geom.active_cells_int(ones, size, t)
+            must, may = decide(t)
             coords = numpy.asarray(coords, dtype=float).reshape(-1, 2)
-            idx = numpy.rint(coords / sp).astype(int)
-            got = [(int(a), int(b)) for a, b in idx]
+            idx, got = _cells(coords, shape, s)
             sub = "subaps=%d:thr=%g" % (s, t)
-            ok = sorted(got) == want and len(set(got)) == len(got)
+            gs = set(got)
+            ok = len(gs) == len(got) and must <= gs and gs <= (must | may)
+            if may:
+                o.stat("threshold_ties_either_way", len(may))
             agg.add("active_cells_exact", sub, ok,
-                    lambda: {"mask": mask_int, "which": label, "got": got, "want": want})
+                    lambda: {"mask": mask_int, "which": label, "got": got, "want": sorted(must),
+                             "either": sorted(may)})
             if ok:
-                cerr = float(numpy.max(numpy.abs(coords - (idx * n) / s))) if len(got) else 0.0
+                # the label of a cell is k * size/subaps; when the size is not a multiple of the count the
+                # statement does not say whether the label is that real number or the pixel where the cell starts
+                if len(got):
+                    want_c = numpy.array([[float(expect_sp[0] * a), float(expect_sp[1] * b)] for a, b in got])
+                    cerr = float(numpy.max(numpy.maximum(numpy.abs(coords - want_c) - ctol[None, :], 0.0)))
+                else:
+                    cerr = 0.0
                 agg.add("cell_coordinates", sub, cerr <= 1e-12, {"mask": mask_int, "coords": coords}, measure=cerr)
                 fw = means[idx[:, 0], idx[:, 1]] if len(got) else numpy.zeros(0)
-                okf = numpy.array_equal(numpy.asarray(fills, dtype=float), fw)
-                agg.add("fills_are_cell_means", sub, okf,
-                        lambda: {"mask": mask_int, "which": label, "fills": fills, "want": fw})
-                if n % s == 0 and len(got):
-                    ff = wfslib.computeFillFactor(mask.copy(), coords.copy(), n // s)
+                fl = numpy.asarray(fills, dtype=float).ravel()
+                if fl.shape == fw.shape:
+                    ferr = float(numpy.max(numpy.abs(fl - fw) / numpy.maximum(1.0, numpy.abs(fw)))) if len(got) else 0.0
+                    ferr = ferr if ferr == ferr else float("inf")
+                else:
+                    ferr = float("inf")
+                agg.add("fills_are_cell_means", sub, ferr <= FILL_TOL,
+                        lambda: {"mask": mask_int, "which": label, "fills": fills, "want": fw},
+                        measure=min(ferr, 1e300), tol=FILL_TOL)
+                if shape[0] == shape[1] and exact_grid[0] and len(got):
+                    ff = numpy.asarray(wfslib.computeFillFactor(mask.copy(), coords.copy(), shape[0] // s),
+                                       dtype=float).ravel()
                     o.stat("lib_calls", 1)
-                    okc = numpy.array_equal(numpy.asarray(ff, dtype=float), numpy.asarray(fills, dtype=float))
-                    agg.add("fills_equal_computeFillFactor", sub, okc,
-                            lambda: {"mask": mask_int, "which": label, "fills": fills, "recomputed": ff})
-            gs = set(got)
+                    if ff.shape == fl.shape:
+                        rerr = float(numpy.max(numpy.abs(ff - fl) / numpy.maximum(1.0, numpy.abs(fl))))
+                        rerr = rerr if rerr == rerr else float("inf")
+                    else:
+                        rerr = float("inf")
+                    agg.add("fills_equal_computeFillFactor", sub, rerr <= FILL_TOL,
+                            lambda: {"mask": mask_int, "which": label, "fills": fills, "recomputed": ff},
+                            measure=min(rerr, 1e300), tol=FILL_TOL)
             if prev is not None:
                 agg.add("shrinks_with_threshold", sub, gs <= prev, {"mask": mask_int, "which": label})
             prev = gs
-        # returnFill=False gives the same coordinates (one threshold)
-        c2 = numpy.asarray(wfslib.findActiveSubaps(s, mask.copy(), 0.5), dtype=float).reshape(-1, 2)
-        o.stat("lib_calls", 1)
-        want = geom.active_cells_int(ones, size, 0.5)
-        got2 = [(int(a), int(b)) for a, b in numpy.rint(c2 / sp).astype(int)]
-        agg.add("same_cells_without_fill", "subaps=%d" % s, sorted(got2) == want, {"mask": mask_int, "which": label})
+            # returnFill=False gives the same cells (the failure id of threshold 0.5 has no threshold in it)
+            c2 = numpy.asarray(wfslib.findActiveSubaps(s, mask.copy(), t), dtype=float).reshape(-1, 2)
+            o.stat("lib_calls", 1)
+            _, got2 = _cells(c2, shape, s)
+            g2 = set(got2)
+            agg.add("same_cells_without_fill", "subaps=%d" % s if t == 0.5 else sub,
+                    len(g2) == len(got2) and must <= g2 and g2 <= (must | may),
+                    {"mask": mask_int, "which": label, "threshold": t})
 
 
 def _subaps(p):
     from aotools.wfs import wfslib
     import aotools
     o = Out()
-    o.check("same_function_all_paths", aotools.wfs.findActiveSubaps is wfslib.findActiveSubaps)
     n = p["n"]
+    shape = tuple(p.get("shape", (n, n)))
+    probe = numpy.array(geom.mask_from_code(4, 0xA5C3), dtype=float)
+    _same_paths(o, [("aotools.wfs.wfslib.findActiveSubaps", wfslib.findActiveSubaps),
+                    ("aotools.wfs.findActiveSubaps", getattr(getattr(aotools, "wfs", None), "findActiveSubaps", None))],
+                [(2, probe, 0.5), (4, probe, 1.0, True)])
     agg = _Agg()
     for c in _codes(p["codes"], n):
-        m = geom.mask_from_code(n, c)
+        m = _mask_from_code(shape, c)
         _check_selection(o, agg, wfslib, m, p["subaps"], "code=%d" % c)
     agg.flush(o)
     return o
+
+
+def _mask_from_code(shape, c):
+    bits = [(c >> k) & 1 for k in range(shape[0] * shape[1])]
+    return numpy.array(bits, dtype=numpy.int64).reshape(shape)
 
 
 def _pupil(n):
@@ -478,7 +700,9 @@ def _storage(p):
     from aotools.wfs import wfslib
     from aotools.functions import pupil
     o = Out()
-    mask = numpy.array(pupil.circle(5.5, 12) - pupil.circle(1.5, 12))
+    # the masks are taken to float64 here (0/1 values: exact) - the storage variants are then derived from one
+    # reference dtype whatever numeric dtype circle() returns
+    mask = numpy.array(pupil.circle(5.5, 12) - pupil.circle(1.5, 12), dtype=float)
     kinds = ("float32", "int64", "int32", "uint8")
     for subaps in (3, 4, 6):
         for thr in (0.0, 0.5, 1.0):
@@ -495,7 +719,7 @@ def _storage(p):
     # boolean masks (pupil > 0) and narrow integer masks with many pixels per sub-aperture (a per-cell sum that is
     # taken in the mask's own dtype saturates / wraps): against the same mask stored as float64
     for size, r_out, r_in, subaps_list in ((12, 5.5, 1.5, (2, 3, 4, 6)), (64, 30.0, 9.0, (2, 4, 8)), (96, 44.0, 0.0, (3, 4, 6))):
-        mk = numpy.array(pupil.circle(r_out, size) - (pupil.circle(r_in, size, (2, -1)) if r_in else 0))
+        mk = numpy.array(pupil.circle(r_out, size) - (pupil.circle(r_in, size, (2, -1)) if r_in else 0), dtype=float)
         for subaps in subaps_list:
             for thr in (0.0, 0.3, 0.5, 1.0):
                 want = wfslib.findActiveSubaps(subaps, mk.astype(float), thr, returnFill=True)
@@ -511,7 +735,7 @@ def _storage(p):
                                lambda a: wfslib.computeFillFactor(a, pos, 3), mask, 1e-12, sub="fill", kinds=kinds)
     o.stat("lib_calls", n)
     # the scatter of slopes into the 2-d map for a mask that is NOT equal to its transpose, in every memory layout
-    amask = numpy.array(pupil.circle(4.2, 12, (1.5, -2.0)) - pupil.circle(1.2, 12, (2.5, 0.0)))
+    amask = numpy.array(pupil.circle(4.2, 12, (1.5, -2.0)) - pupil.circle(1.2, 12, (2.5, 0.0)), dtype=float)
     ns = int(amask.sum())
     slopes = 0.37 + numpy.arange(2 * 2 * ns, dtype=float).reshape(2, 2, ns)
     n = variants.check_storage(o, "scatter_independent_of_mask_storage", lambda a: wfslib.make_subaps_2d(slopes.copy(), a),
@@ -547,7 +771,10 @@ def _grey(p):
             digits.append(c % 3)
             c //= 3
         mi = numpy.array(digits, dtype=numpy.int64).reshape(n, n)
-        _check_selection(o, agg, wfslib, mi, [s for s in range(1, n + 1)], "grey code %d" % code, unit=2)
+        if p.get("values"):
+            mi = numpy.array(p["values"], dtype=numpy.int64)[mi]
+        _check_selection(o, agg, wfslib, mi, [s for s in range(1, n + 1)], "grey code %d" % code, unit=2,
+                         thresholds=p.get("thresholds"))
     agg.flush(o)
     o.stat("nontrivial", p["hi"] - p["lo"])
     return o
@@ -563,19 +790,8 @@ def _large(p):
         for r4, c4, origin in ((4 * n // 2, (0, 0), "middle"), (4 * n // 3 + 1, (6, -10), "middle"),
                                (4 * 40 + 2, (4 * 50, 4 * 70 + 2), "corner"), (4 * n, (2, 2), "middle")):
             got = numpy.asarray(pupil.circle(r4 / 4.0, n, (c4[0] / 4.0, c4[1] / 4.0), origin))
-            want = geom.disc(n, r4, c4, origin) if hasattr(geom, "disc") else None
+            want = geom.disc_q(n, r4, c4[0], c4[1], origin)
             o.stat("lib_calls", 1)
-            if want is None:
-                # integer oracle coded here: pixel centres at i + 1/2, quarter-pixel units
-                k = numpy.arange(n)
-                if origin == "middle":
-                    x = 4 * k + 2 - 2 * n
-                else:
-                    x = 4 * k + 2
-                dx = (x - c4[0])[:, None] if False else None
-                X = (x - c4[0])
-                Y = (x - c4[1])
-                want = ((X[None, :] ** 2 + Y[:, None] ** 2) <= r4 * r4)
             o.check("exact_indicator_large", got.shape == (n, n) and numpy.array_equal(got.astype(bool), want),
                     sub="n=%d:r=%g:c=%s:%s" % (n, r4 / 4.0, (c4[0] / 4.0, c4[1] / 4.0), origin),
                     detail=int(numpy.sum(got.astype(bool) != want)) if got.shape == (n, n) else got.shape)
@@ -629,4 +845,253 @@ def _neartie(p):
         o.stat("lib_calls", 1)
         o.check("exact_indicator_far_centre", got.shape == (n, n) and numpy.array_equal(got.astype(bool), want),
                 sub="cx=2^23+%g" % (dx4 / 4.0), detail=int(numpy.sum(got.astype(bool) != want)) if got.shape == (n, n) else None)
+    return o
+
+
+# ----------------------------------------------------------------------------- later additions
+
+def _large_circle(p):
+    """spot sizes 1030 / 2050 (/ 4100): the integer disc, radii with many distance == radius ties, off-centre
+    quarter-pixel centres, both origins"""
+    from aotools.functions import pupil
+    o = Out()
+    n = p["n"]
+    for r4, c4, origin in ((4 * (n // 2), (0, 0), "middle"), (4 * (n // 3) + 1, (6, -10), "middle"),
+                           (4 * (n // 2) - 3, (1, 3), "middle"), (4 * (n // 3) + 2, (4 * (n // 2) + 2, 4 * (n // 2) - 40), "corner")):
+        got = numpy.asarray(pupil.circle(r4 / 4.0, n, (c4[0] / 4.0, c4[1] / 4.0), origin))
+        o.stat("lib_calls", 1)
+        want = geom.disc_q(n, r4, c4[0], c4[1], origin)
+        ok = got.shape == (n, n) and bool(numpy.all((got == 0) | (got == 1))) and numpy.array_equal(got == 1, want)
+        o.check("exact_indicator_large", ok, sub="n=%d:r=%g:c=%s:%s" % (n, r4 / 4.0, (c4[0] / 4.0, c4[1] / 4.0), origin),
+                detail=int(numpy.sum((got == 1) != want)) if got.shape == (n, n) else got.shape)
+        del got, want
+    return o
+
+
+def _pattern(shape):
+    i, j = numpy.indices(shape)
+    return (((i * i + 3 * j) % 5) < 2).astype(numpy.int64)
+
+
+def _large_selection(p):
+    """a 1040-pixel off-axis annulus with 8 ... 40 sub-apertures across (cells of up to 130 x 130 pixels)"""
+    from aotools.functions import pupil
+    from aotools.wfs import wfslib
+    o = Out()
+    mi = (numpy.asarray(pupil.circle(500, 1040)) - numpy.asarray(pupil.circle(150.5, 1040, (30, -20)))).astype(numpy.int64)
+    o.stat("lib_calls", 2)
+    agg = _Agg()
+    _check_selection(o, agg, wfslib, mi, [8, 13, 16, 40, 7, 12], "annulus 1040")
+    agg.flush(o)
+    return o
+
+
+def _tie_edges(p):
+    """(size, count) pairs with cell edges at half-integer positions (no rule in the statement: the library's own
+    choice, read off a probe mask, is used for those edges) and pairs where k * fl(n/s) is not the rounded k*n/s"""
+    from aotools.wfs import wfslib
+    o = Out()
+    agg = _Agg()
+    for n, s in ((5, 2), (7, 2), (9, 6), (15, 6), (25, 22), (29, 14), (100, 24), (130, 60), (28, 14), (26, 22)):
+        _check_selection(o, agg, wfslib, _pattern((n, n)), [s], "pattern %dx%d" % (n, n))
+        _check_selection(o, agg, wfslib, numpy.ones((n, n), dtype=numpy.int64) - _pattern((n, n)).T, [s],
+                         "pattern' %dx%d" % (n, n))
+    agg.flush(o)
+    return o
+
+
+def _rect_spot(p):
+    """non-square masks beyond the exhaustive 2x3 ... 4x3: the two axes have their own spacing"""
+    from aotools.wfs import wfslib
+    o = Out()
+    agg = _Agg()
+    for shape in ((4, 8), (8, 4), (6, 9), (9, 6), (10, 15), (12, 7), (130, 65), (65, 130)):
+        m = _pattern(shape)
+        m[:, shape[1] - shape[1] // 4:] = 0
+        subs = [s for s in range(1, min(shape) + 1)] if max(shape) < 100 else [5, 13, 10, 65]
+        _check_selection(o, agg, wfslib, m, subs, "pattern %dx%d" % shape)
+    agg.flush(o)
+    return o
+
+
+def _scatter_large(p):
+    """scatter -> gather on maps larger than the exhaustive 4x4: an asymmetric 12x12 mask, the 26x26 and 65x65 maps
+    of the cells of a 130-pixel annulus that are at least half lit; 0, 1 and 3 frames"""
+    from aotools.wfs import wfslib
+    o = Out()
+    masks = [("asymmetric12", (geom.disc_q(12, 17, 6, -8) & ~geom.disc_q(12, 5, 10, 0)).astype(numpy.int64))]
+    ann = (geom.disc_q(130, 240) & ~geom.disc_q(130, 70, 12, -8)).astype(numpy.int64)
+    for s in (26, 65):
+        ones, size = geom.cell_counts(ann, s)
+        masks.append(("annulus130/%d" % s, (2 * ones >= size).astype(numpy.int64)))
+    for name, mi in masks:
+        ns = int(mi.sum())
+        for frames in (0, 1, 3):
+            for mdtype in (float, numpy.int64, bool):
+                data = 0.37 + numpy.arange(frames * 2 * ns, dtype=float).reshape(frames, 2, ns)
+                out = numpy.asarray(wfslib.make_subaps_2d(data.copy(), mi.astype(mdtype)))
+                o.stat("lib_calls", 1)
+                ok = out.shape == (frames, 2) + mi.shape
+                back = out[:, :, mi == 1] if ok else None
+                ok = ok and back.shape == data.shape and numpy.array_equal(back, data)
+                o.check("scatter_gather_identity", ok, sub="%s:frames=%d:mask=%s" % (name, frames, numpy.dtype(mdtype).name),
+                        detail=None if ok else {"out_shape": out.shape, "n_subaps": ns})
+    return o
+
+
+def _reuse(p):
+    """call histories on objects the caller keeps: a result the caller edits in place (m -= circle(...) is how
+    annuli are made) must not change what the next call returns; one caller-owned mask / slope array handed to
+    the library repeatedly and edited in between (mc.variants.check_reuse)"""
+    from mc import variants
+    from aotools.wfs import wfslib
+    from aotools.functions import pupil
+    o = Out()
+    for r4, n, c4, origin in ((8, 5, (0, 0), "middle"), (9, 6, (2, -1), "middle"), (10, 7, (14, 12), "corner"),
+                              (4 * 40, 130, (0, 0), "middle")):
+        args = (r4 / 4.0, n, (c4[0] / 4.0, c4[1] / 4.0), origin)
+        want = geom.disc_q(n, r4, c4[0], c4[1], origin)
+        sub = "r=%g:n=%d:c=%s:%s" % args
+        m1 = pupil.circle(*args)
+        ok1 = numpy.array_equal(numpy.asarray(m1) == 1, want)
+        m2 = pupil.circle(*args)                       # same arguments again, first result still alive
+        ok2 = numpy.array_equal(numpy.asarray(m2) == 1, want)
+        edited = False
+        try:
+            m1 -= pupil.circle(r4 / 8.0, n, args[2], origin)      # the caller turns ITS array into an annulus
+            m1[...] = 7
+            edited = True
+        except Exception:
+            o.stat("circle_result_edit_not_claimed", 1)            # a read-only result: nothing to observe
+        m3 = pupil.circle(*args)
+        ok3 = numpy.array_equal(numpy.asarray(m3) == 1, want) and bool(numpy.all((numpy.asarray(m3) == 0) | (numpy.asarray(m3) == 1)))
+        other = pupil.circle(r4 / 4.0, n, (c4[0] / 4.0 + 1, c4[1] / 4.0), origin)   # another centre in between
+        ok4 = numpy.array_equal(numpy.asarray(other) == 1, geom.disc_q(n, r4, c4[0] + 4, c4[1], origin))
+        m5 = pupil.circle(*args)
+        ok5 = numpy.array_equal(numpy.asarray(m5) == 1, want)
+        o.stat("lib_calls", 6)
+        o.check("circle_independent_of_call_history", ok1 and ok2, sub=sub + ":repeat")
+        o.check("circle_independent_of_call_history", ok3, sub=sub + ":after_caller_edit_of_result",
+                detail=None if ok3 else {"edited": edited, "got": numpy.asarray(m3)[:8, :8]})
+        o.check("circle_independent_of_call_history", ok4 and ok5, sub=sub + ":after_other_centre")
+    amask = numpy.array(pupil.circle(4.25, 12, (1.5, -2.0)) - pupil.circle(1.25, 12, (2.5, 0.0)), dtype=float)
+    ns = int(amask.sum())
+    slopes = 0.37 + numpy.arange(2 * 2 * ns, dtype=float).reshape(2, 2, ns)
+    pos = numpy.array([[0., 0.], [3., 3.], [6., 3.], [9., 9.], [3., 9.]])
+    n = 0
+    for subaps, thr in ((3, 0.5), (4, 0.25), (6, 0.0), (5, 0.5)):
+        n += variants.check_reuse(o, "selection", lambda a: wfslib.findActiveSubaps(subaps, a, thr, returnFill=True),
+                                  amask, 1e-12, sub="subaps=%d:thr=%g:fill" % (subaps, thr))
+        n += variants.check_reuse(o, "selection", lambda a: wfslib.findActiveSubaps(subaps, a, thr),
+                                  amask, 1e-12, sub="subaps=%d:thr=%g" % (subaps, thr))
+    n += variants.check_reuse(o, "fill_factor", lambda a: wfslib.computeFillFactor(a, pos, 3), amask, 1e-12, sub="mask")
+    n += variants.check_reuse(o, "scatter", lambda a: wfslib.make_subaps_2d(slopes, a), amask, 0.0, sub="mask")
+    n += variants.check_reuse(o, "scatter", lambda a: wfslib.make_subaps_2d(a, amask), slopes, 0.0, sub="slopes")
+    o.stat("lib_calls", n)
+    return o
+
+
+def _conventions(p):
+    """the same call written the other ways callers write it: centre as list / ndarray / numpy scalars, keyword
+    arguments (a keyword the function does not know is not claimed by the statement: guarded), the library's own
+    EMPTY selection handed to computeFillFactor, integer sub-aperture positions"""
+    from aotools.functions import pupil
+    from aotools.wfs import wfslib
+    o = Out()
+    for r4, n, c4, origin in ((4, 4, (2, 2), "middle"), (9, 7, (-3, 6), "middle"), (10, 6, (14, 9), "corner")):
+        want = geom.disc_q(n, r4, c4[0], c4[1], origin)
+        r, c = r4 / 4.0, (c4[0] / 4.0, c4[1] / 4.0)
+        for name, cc in (("list", list(c)), ("ndarray", numpy.array(c))):
+            try:
+                got = numpy.asarray(pupil.circle(r, n, cc, origin))
+                ok = got.shape == (n, n) and numpy.array_equal(got == 1, want)
+                det = None if ok else got
+            except Exception as e:
+                ok, det = False, "%s: %s" % (type(e).__name__, str(e)[:200])
+            o.stat("lib_calls", 1)
+            o.check("circle_accepts_array_centre", ok, sub="r=%g:n=%d:c=%s:%s:%s" % (r, n, c, origin, name), detail=det)
+        try:
+            got = numpy.asarray(pupil.circle(radius=r, size=n, circle_centre=c, origin=origin))
+        except TypeError:
+            o.stat("circle_keywords_not_claimed", 1)
+        else:
+            o.stat("lib_calls", 1)
+            o.check("circle_keyword_call", got.shape == (n, n) and numpy.array_equal(got == 1, want),
+                    sub="r=%g:n=%d:c=%s:%s" % (r, n, c, origin))
+    mi = (geom.disc_q(12, 22, 2, -3) & ~geom.disc_q(12, 6, 2, -3)).astype(numpy.int64)
+    mask = mi.astype(float)
+    for s in (2, 3, 4, 6, 12):
+        ones, size = geom.cell_counts(mi, s)
+        for t in (0.0, 0.5, 1.0, 1.25):
+            want = geom.active_cells_int(ones, size, t)
+            try:
+                got = wfslib.findActiveSubaps(subaps=s, mask=mask.copy(), threshold=t, returnFill=False)
+            except TypeError:
+                o.stat("selection_keywords_not_claimed", 1)
+            else:
+                o.stat("lib_calls", 1)
+                _, cells = _cells(numpy.asarray(got, dtype=float).reshape(-1, 2), mi.shape, s)
+                o.check("selection_keyword_call", sorted(cells) == want, sub="subaps=%d:thr=%g" % (s, t))
+            # recomputation of the fill factors from exactly what the selection returned, empty or not
+            raw, fills = wfslib.findActiveSubaps(s, mask.copy(), t, returnFill=True)
+            o.stat("lib_calls", 1)
+            fills = numpy.asarray(fills, dtype=float).ravel()
+            for name, posn in (("as_returned", raw),
+                               ("integer_positions", numpy.rint(numpy.asarray(raw, dtype=float).reshape(-1, 2)).astype(numpy.int64))):
+                try:
+                    ff = numpy.asarray(wfslib.computeFillFactor(mask.copy(), posn, 12 // s), dtype=float).ravel()
+                    ok = ff.shape == fills.shape and (not len(ff) or float(numpy.max(numpy.abs(ff - fills))) <= FILL_TOL)
+                    det = None if ok else {"recomputed": ff, "fills": fills}
+                except Exception as e:
+                    ok, det = False, "%s: %s" % (type(e).__name__, str(e)[:200])
+                o.stat("lib_calls", 1)
+                o.check("fills_equal_computeFillFactor", ok, sub="subaps=%d:thr=%g:%s:selected=%d" % (s, t, name, len(fills)),
+                        detail=det)
+    return o
+
+
+def _nondyadic(p):
+    """'for arbitrary real c': centres that are not on any dyadic lattice (0.1, 1/3, ...), radii a relative 1e-9 and
+    1e-11 below / above every distance a pixel centre attains; the oracle is exact rational arithmetic on the exact
+    values of the floats handed over.  A radius closer than 1e-12 (relative, in d^2) to some OTHER attained distance
+    is skipped: float evaluation of (x - cx)^2 + (y - cy)^2 carries ~1e-15."""
+    from fractions import Fraction
+    import bisect
+    from aotools.functions import pupil
+    o = Out()
+    n = p["n"]
+    bad = skipped = 0
+    for origin in ("middle", "corner"):
+        for (cx, cy) in ((0.1, -0.3), (1.0 / 3.0, 2.0 / 3.0), (-1.7, 0.45)):
+            if origin == "corner":
+                cx, cy = cx + n / 2.0 + 0.3, cy + n / 2.0 - 0.7
+            off = Fraction(n, 2) if origin == "middle" else Fraction(0)
+            X = [Fraction(2 * i + 1, 2) - off - Fraction(cx) for i in range(n)]
+            Y = [Fraction(2 * j + 1, 2) - off - Fraction(cy) for j in range(n)]
+            d2 = [[Y[j] * Y[j] + X[i] * X[i] for i in range(n)] for j in range(n)]
+            distinct = sorted(set(v for row in d2 for v in row))
+            rank = numpy.array([[bisect.bisect_left(distinct, v) for v in row] for row in d2])
+            approx = numpy.array([float(v) for v in distinct])
+            for v in distinct:
+                r0 = float(v) ** 0.5
+                for eps in (-1e-9, -1e-11, 1e-11, 1e-9):
+                    r = r0 * (1.0 + eps)
+                    if r <= 0 or float(numpy.min(numpy.abs(approx / (r * r) - 1.0))) < 1e-12:
+                        skipped += 1
+                        continue
+                    want = rank < bisect.bisect_right(distinct, Fraction(r) ** 2)     # d2 <= r^2, exactly
+                    got = numpy.asarray(pupil.circle(r, n, (cx, cy), origin))
+                    o.stat("lib_calls", 1)
+                    ok = got.shape == (n, n) and numpy.array_equal(got == 1, want)
+                    if not ok:
+                        bad += 1
+                        if bad <= 12:
+                            o.check("exact_indicator_nondyadic_centre", False,
+                                    sub="%s:c=(%r,%r):r=%r" % (origin, cx, cy, r),
+                                    detail="%d pixels differ" % (int(numpy.sum((got == 1) != want)) if got.shape == (n, n) else -1))
+    if bad == 0:
+        o.check("exact_indicator_nondyadic_centre", True)
+    elif bad > 12:
+        o.check("exact_indicator_nondyadic_centre", False, sub="(more)", detail="%d failing (r, c) in all" % bad)
+    o.stat("nondyadic_radii_too_close_to_another_distance_skipped", skipped)
     return o
